@@ -36,12 +36,21 @@ def exhaustive(tier):
     return False
 
 
+NTCP = {'quick': 64, 'thorough': 1600}
+
+
 def plan(tier, seed):
-    return [{'lo': p[0], 'hi': p[-1] + 1} for p in chunked(range(N[tier]), 16) if p]
+    specs = [{'lo': p[0], 'hi': p[-1] + 1} for p in chunked(range(N[tier]), 16) if p]
+    specs += [{'tcp': True, 'lo': p[0], 'hi': p[-1] + 1} for p in chunked(range(NTCP[tier]), 8) if p]
+    return specs
 
 
 def run_shard(spec, tier, seed):
     res = Result()
+    if spec.get('tcp'):
+        for i in range(spec['lo'], spec['hi']):
+            tcp_case(res, {'op': 'tcp', 'index': i, 'seed': seed})
+        return res
     for i in range(spec['lo'], spec['hi']):
         if i % 2:
             get_case(res, {'op': 'get', 'index': i, 'seed': seed})
@@ -52,6 +61,9 @@ def run_shard(spec, tier, seed):
 
 def replay(case):
     res = Result()
+    if case['op'] == 'tcp':
+        tcp_case(res, case)
+        return res
     (get_case if case['op'] == 'get' else move_case)(res, case)
     return res
 
@@ -343,3 +355,176 @@ def _cls(code):
     if code in (0xB000, 0xB006, 0xB007):
         return 'W'
     return 'F'
+
+
+# --------------------------------------------------------------------------
+# full-stack sample over loopback TCP (real threads): the same checkers
+# --------------------------------------------------------------------------
+def tcp_case(res, case, attempt=0):
+    from pynetdicom2 import applicationentity, exceptions, sopclass, statuses, dsutils
+    import pydicom
+    import threading
+    from . import tcpnet
+    i, seed = case['index'], case['seed']
+    r = rng(seed, 'c19-tcp', i)
+    n = r.choice([0, 1, 2, 3, 5, 8])
+    op = 'move' if i % 2 == 0 else 'get'
+    outcomes = [r.choice([0x0000, 0x0000, 0xB000, 0xA700]) for _ in range(n)]
+    jitter = r.choice([0.0, 0.002, 0.004]) if not attempt else 0.0
+    net = tcpnet.Net(seed=seed * 77 + i, jitter=jitter)
+    res.evaluations += 1 if not attempt else 0
+    res.distinct.add('tcp|%s|%d|%s' % (op, n, ''.join('%X' % (o >> 12) for o in outcomes)))
+    where = 'TCP %s n=%d outcomes=%s jitter=%s' % (op, n, ['%04X' % o for o in outcomes], jitter)
+    instances = ['1.2.826.19.%d.%d' % (i, k) for k in range(n)]
+    lock = threading.Lock()
+    stored = []
+    error = None
+    progress = []
+    yielded = []
+    answers = []
+
+    def ds_for(k):
+        d = pydicom.Dataset()
+        d.SOPClassUID = svc.CT
+        d.SOPInstanceUID = instances[k]
+        d.PatientName = 'RETRIEVE^%d^%d' % (i, k)
+        d.ImageComments = 'y' * r.choice([10, 2000])
+        return d
+
+    with tcpnet.instrument(net):
+        try:
+            if op == 'move':
+                class Dest(tcpnet.TapServerMixin, applicationentity.AE):
+                    def on_receive_store(self, context, ds):
+                        d = pydicom.dcmread(ds)
+                        with lock:
+                            k = len(stored)
+                            stored.append(str(d.SOPInstanceUID))
+                        return statuses.Status(outcomes[k] if k < len(outcomes) else 0,
+                                               sopclass.dimsemessages.CStoreRSPMessage)
+                dest = Dest('DEST', 0, max_pdu_length=r.choice([256, 16384]))
+                dest.net = net
+                dest.timeout = 8
+                dest.add_scp(sopclass.storage_scp)
+
+                class Mover(tcpnet.TapServerMixin, applicationentity.AE):
+                    def on_receive_move(self, context, ds, destination):
+                        def gen():
+                            for k in range(n):
+                                yield ds_for(k)
+                        return ({'aet': 'DEST', 'address': '127.0.0.1', 'port': dest.port}, n, gen())
+                mover = Mover('MOVER', 0, supported_ts=['1.2.840.10008.1.2'])
+                mover.net = net
+                mover.timeout = 8
+                mover.add_scp(sopclass.qr_move_scp)
+                mover.add_scu(sopclass.storage_scu, [svc.CT])
+                with tcpnet.serving(dest), tcpnet.serving(mover):
+                    client = applicationentity.ClientAE('MOVESCU', supported_ts=['1.2.840.10008.1.2'])
+                    client.timeout = 8
+                    client.add_scu(sopclass.qr_move_scu)
+                    q = pydicom.Dataset()
+                    q.PatientID = 'P%d' % i
+                    q.QueryRetrieveLevel = 'PATIENT'
+                    with client.request_association({'aet': 'MOVER', 'address': '127.0.0.1',
+                                                     'port': mover.port}) as assoc:
+                        for st, rsp in assoc.get_scu(svc.MOVE)(q, 'DEST', 3):
+                            progress.append((int(st), rsp.num_of_remaining_sub_ops,
+                                             rsp.num_of_completed_sub_ops, rsp.num_of_failed_sub_ops,
+                                             rsp.num_of_warning_sub_ops))
+                    errs = list(getattr(mover, 'handler_errors', [])) + list(getattr(dest, 'handler_errors', []))
+                    if errs:
+                        error = errs[0]
+            else:
+                from . import refcodec as RC
+
+                def handler(peer):
+                    peer.accept(max_len=16384)
+                    ctx, cmd, data, lengths, problems = peer.recv_dimse()
+                    store_ctx = [c for c, (a, t) in peer.contexts.items() if a == svc.CT][0]
+                    for k in range(n):
+                        if r.random() < 0.4:
+                            peer.send_dimse(ctx, {RC.TAG_AFFECTED_SOP_CLASS: svc.GET, RC.TAG_COMMAND_FIELD: 0x8010,
+                                                  RC.TAG_MESSAGE_ID_RSP: cmd[RC.TAG_MESSAGE_ID],
+                                                  RC.TAG_STATUS: 0xFF00, RC.TAG_REMAINING: n - k,
+                                                  RC.TAG_COMPLETED: k, RC.TAG_FAILED: 0, RC.TAG_WARNING: 0})
+                        peer.send_dimse(store_ctx, {RC.TAG_AFFECTED_SOP_CLASS: svc.CT,
+                                                    RC.TAG_COMMAND_FIELD: 0x0001, RC.TAG_MESSAGE_ID: 100 + k,
+                                                    RC.TAG_PRIORITY: 0,
+                                                    RC.TAG_AFFECTED_SOP_INSTANCE: instances[k]},
+                                        dsutils.encode(ds_for(k), True, True))
+                        item = peer.recv_dimse()
+                        if isinstance(item, dict):
+                            raise AssertionError('expected a C-STORE-RSP, got %r' % item)
+                        answers.append((item[0], item[1].get(RC.TAG_MESSAGE_ID_RSP),
+                                        item[1].get(RC.TAG_AFFECTED_SOP_INSTANCE), item[1].get(RC.TAG_STATUS),
+                                        item[1].get(RC.TAG_COMMAND_FIELD)))
+                    peer.send_dimse(ctx, {RC.TAG_AFFECTED_SOP_CLASS: svc.GET, RC.TAG_COMMAND_FIELD: 0x8010,
+                                          RC.TAG_MESSAGE_ID_RSP: cmd[RC.TAG_MESSAGE_ID], RC.TAG_STATUS: 0,
+                                          RC.TAG_COMPLETED: n, RC.TAG_FAILED: 0, RC.TAG_WARNING: 0})
+                    nxt = peer.recv_pdu()
+                    if nxt['type'] == 5:
+                        peer.send_pdu({'type': 6})
+                    return store_ctx
+                srv = tcpnet.PeerServer(handler, timeout=8.0)
+                try:
+                    calls = []
+
+                    class GetAE(applicationentity.ClientAE):
+                        def on_receive_store(self, context, ds):
+                            k = len(calls)
+                            calls.append(k)
+                            return statuses.Status(outcomes[k] if k < len(outcomes) else 0, None)
+                    client = GetAE('GETSCU', supported_ts=['1.2.840.10008.1.2'])
+                    client.timeout = 8
+                    client.add_scu(sopclass.qr_get_scu)
+                    client.add_scu(_memory_storage(), [svc.CT])
+                    q = pydicom.Dataset()
+                    q.PatientID = 'P%d' % i
+                    with client.request_association({'aet': 'GETSCP', 'address': '127.0.0.1',
+                                                     'port': srv.port}) as assoc:
+                        for ctx, d in assoc.get_scu(svc.GET)(q, 9):
+                            yielded.append(str(d.SOPInstanceUID))
+                finally:
+                    srv.close()
+                if srv.errors:
+                    error = AssertionError(srv.errors[0])
+                store_ctx = srv.results[0] if srv.results else None
+        except Exception as exc:
+            error = exc
+    tcpnet.wait_quiet(0, 3.0)
+    res.notes['interleaving_signatures'] = [net.signature()]
+    if isinstance(error, exceptions.DCMTimeoutError) and attempt < 2:
+        res.count('flaky-timeouts')
+        return tcp_case(res, case, attempt + 1)
+    res.count('oracle.tcp-sample')
+    if error is not None:
+        res.violation('retrieve-raises:' + type(error).__name__, 'C19.tcp', '%s: %s: %s' % (
+            where, type(error).__name__, error), case)
+        return
+    if op == 'move':
+        if stored != instances:
+            res.violation('move-instance-stored-zero-or-several-times' if sorted(stored) != sorted(instances)
+                          else 'move-instances-out-of-order', 'C19.tcp',
+                          '%s: destination received %r' % (where, [s[-4:] for s in stored]), case)
+        finals = [p for p in progress if p[0] not in (0xFF00, 0xFF01)]
+        if len(finals) != 1 or (progress and progress[-1][0] in (0xFF00, 0xFF01)):
+            res.violation('move-final-response-count', 'C19.tcp', '%s: responses %r' % (where, progress), case)
+        pend = [p for p in progress if p[0] in (0xFF00, 0xFF01)]
+        for k, (st, remaining, completed, failed, warning) in enumerate(pend, start=1):
+            ok = completed == k or (completed is not None and completed + (failed or 0) + (warning or 0) == k)
+            if remaining != n - k or not ok:
+                res.violation('move-progress-counters', 'C19.tcp',
+                              '%s: progress response %d of %d: remaining=%r completed=%r failed=%r warning=%r'
+                              % (where, k, n, remaining, completed, failed, warning), case)
+                break
+        if len(pend) != n:
+            res.violation('move-progress-count', 'C19.tcp', '%s: %d progress responses for %d '
+                          'sub-operations' % (where, len(pend), n), case)
+    else:
+        want = [(store_ctx, 100 + k, instances[k], outcomes[k], 0x8001) for k in range(n)]
+        if answers != want:
+            res.violation('get-store-response-mismatch', 'C19.tcp', '%s: C-STORE responses %r, expected %r' % (
+                where, answers[:4], want[:4]), case)
+        if yielded != instances:
+            res.violation('get-yield-sequence', 'C19.tcp', '%s: yielded %r' % (where, [y[-4:] for y in yielded]),
+                          case)
